@@ -1,5 +1,5 @@
 (* C10/Witness.v — non-vacuity of the hypotheses of Properties.v and concrete runs (vm_compute). *)
-From Verif Require Import Common.Base C10.Model C10.Proofs1 C10.Proofs2 C10.Proofs3 C10.Proofs4 C10.Proofs5.
+From Verif Require Import Common.Base C10.Model C10.Proofs1 C10.Proofs2 C10.Proofs3 C10.Proofs4 C10.Proofs5 C10.Proofs7.
 
 (* two pipelines joined by a connector:
      receiver 0 -> cap 10 -> processor 1 -> fanout 11 -> exporter 2, connector 3
@@ -116,3 +116,23 @@ Proof. vm_compute. reflexivity. Qed.
 Example live_cx_example : live_cx {| d0_start := false; d0_stop := false; xc_start := none; cc_start := none;
                                     xc_stop := none; cc_stop := none; x_sens := all; c_sens := all |}.
 Proof. repeat split. Qed.
+
+(* the sort algorithm: different preferences give different valid orders of g1; the recorded
+   order o1 is reproduced when it is the preference; a cyclic dependency set is rejected with a cycle *)
+Example sort_pref_empty : topo_sort (nodes g1) (edges g1) [] = Sorted [0; 10; 1; 11; 2; 3; 12; 13; 4].
+Proof. vm_compute. reflexivity. Qed.
+Example sort_pref_other : topo_sort (nodes g1) (edges g1) [4; 3; 2] = Sorted [0; 10; 1; 11; 3; 2; 12; 13; 4].
+Proof. vm_compute. reflexivity. Qed.
+Example sort_reproduces_o1 : topo_sort (nodes g1) (edges g1) (stop_order o1) = Sorted (stop_order o1).
+Proof. vm_compute. reflexivity. Qed.
+Example sort_cycle : topo_sort [0; 1; 2; 3] [(0, 1); (1, 2); (2, 1); (2, 3)] [] = Cyclic [1; 2].
+Proof. vm_compute. reflexivity. Qed.
+Example wf_g1 : wf_topology g1 x1.
+Proof.
+  split; [apply nodupb_NoDup; reflexivity|]. split.
+  - intros u v H. simpl in H. repeat (destruct H as [H|H]; [inversion H; subst; simpl; tauto|]). destruct H.
+  - split; [apply nodupb_NoDup; reflexivity|].
+    intros u v H. simpl in H. repeat (destruct H as [H|H]; [inversion H; subst; simpl; tauto|]). destruct H.
+Qed.
+Example orders_by_g1 : orders_by g1 x1 [] [] (stop_order o1) <> None.
+Proof. vm_compute. discriminate. Qed.
